@@ -30,6 +30,8 @@ PKGS = {
     "orig": ORIG, "ext/model": "package model\n\ntype T struct{ M int }\n",
     "repa": "package repa\n\ntype R1 struct{ A int }\n\ntype R2 int\n\ntype RA = R1\n", "repb": "package repb\n\nimport \"time\"\n\ntype U struct{ B int }\n\ntype Dur = time.Duration\n\ntype R1 struct{ Z string }\n\ntype R2 float64\n",
     "rep/model": "package model\n\ntype R struct{ C int }\n",
+    # replacement packages whose name is not the last element of their import path (major-version suffix, go- prefix)
+    "rep/lib/v2": "package lib\n\ntype R struct{ D int }\n", "rep/go-c": "package c\n\ntype N int\n",
 }
 # candidate parameter types: (source text, key of the exact named type it *is*, or None)
 TYPES = [("orig.T", "T"), ("orig.Other", "Other"), ("orig.A", "A"), ("[]orig.T", None), ("*orig.T", None), ("map[string]orig.T", None), ("map[orig.Other]orig.T", None),
@@ -171,6 +173,8 @@ REPLACEMENTS = [
     {"T": ("repb", "U"), "A": ("repa", "R1"), "Other": ("rep/model", "R")},
     # two targets with the same type name in different packages: the configured pkg-path selects the package
     {"T": ("repa", "R1"), "Other": ("repb", "R1")}, {"T": ("repb", "R2"), "A": ("repa", "R2"), "Other": ("repb", "R1")},
+    # the replacement is the first thing to bring a package into the file whose name cannot be read off its import path
+    {"T": ("rep/lib/v2", "R"), "Other": ("rep/go-c", "N")},
 ]
 
 
